@@ -3,6 +3,7 @@
 package cl
 
 import (
+	"math"
 	"math/big"
 
 	"github.com/ohler55/slip"
@@ -26,4 +27,40 @@ func syncFloatPrec(v0, v1 *slip.LongFloat) (*slip.LongFloat, *slip.LongFloat) {
 		v1 = (*slip.LongFloat)(z)
 	}
 	return v0, v1
+}
+
+// addFixnums adds two fixnums. A sum that does not fit in a fixnum is
+// returned as a bignum instead of wrapping around.
+func addFixnums(a, b slip.Fixnum) slip.Object {
+	sum := a + b
+	if (sum < a) == (b < 0) {
+		return sum
+	}
+	var z big.Int
+	return (*slip.Bignum)(z.Add(big.NewInt(int64(a)), big.NewInt(int64(b))))
+}
+
+// subFixnums subtracts b from a. A difference that does not fit in a fixnum
+// is returned as a bignum instead of wrapping around.
+func subFixnums(a, b slip.Fixnum) slip.Object {
+	dif := a - b
+	if (dif > a) == (b < 0) {
+		return dif
+	}
+	var z big.Int
+	return (*slip.Bignum)(z.Sub(big.NewInt(int64(a)), big.NewInt(int64(b))))
+}
+
+// mulFixnums multiplies two fixnums. A product that does not fit in a fixnum
+// is returned as a bignum instead of wrapping around.
+func mulFixnums(a, b slip.Fixnum) slip.Object {
+	if a == 0 || b == 0 {
+		return slip.Fixnum(0)
+	}
+	product := a * b
+	if product/b == a && !(a == -1 && b == math.MinInt64) && !(b == -1 && a == math.MinInt64) {
+		return product
+	}
+	var z big.Int
+	return (*slip.Bignum)(z.Mul(big.NewInt(int64(a)), big.NewInt(int64(b))))
 }
